@@ -482,9 +482,9 @@ impl<TokenIter: Iterator<Item = Result<Token>>> Iterator for Parser<TokenIter> {
 
 fn create_syntax_binding() -> Rc<LexicalScope<Transformer>> {
     thread_local! {static BINDINGS: Rc<LexicalScope<Transformer>> = {
-            let mut parser = Parser::from_lexer_primary_syntax(Lexer::from_char_stream(
-                include_str!("grammar.sld").chars(),
-            ));
+            let mut parser = Parser::from_lexer_primary_syntax(
+                Lexer::from_char_stream(include_str!("grammar.sld").chars()).without_locations(),
+            );
             while parser.next().is_some() {} // force consume the parser iterator to bind all syntax.
             parser.syntax_env
         };
